@@ -1,30 +1,49 @@
 import Flowdyn.Exec.Proto
+import Flowdyn.Exec.Vec
 import Flowdyn.Model.Integrators
 import Flowdyn.Generated.Tables
-import Mathlib.Algebra.Module.Pi
 
 namespace Flowdyn.Exec
 open Flowdyn
 
-/-- The recording test right-hand side used by layer `L-int`: a nonlinear, time dependent,
-neighbour-coupled polynomial map on `ℚ^n`, with coefficients `c = [c0, c1, c2, c3, c4]`:
+/-- The recording test right-hand side used by layers `L-int`, `L-istep`, `L-driver`: a nonlinear, time
+dependent, neighbour-coupled polynomial map on `ℚ^n`, with coefficients `c = [c0, c1, c2, c3, c4]`:
 `R(t,q)_i = c0 + c1*t + (c2 + c3*t) * q_i + c4 * q_i * q_{(i+1) mod n}`.
 The same formula is implemented by the Python recording discretisation. -/
-def testR (n : ℕ) (c : Array ℚ) (t : ℚ) (q : Fin n → ℚ) : Fin n → ℚ :=
-  let v : Array ℚ := Array.ofFn q
-  let r : Array ℚ := Array.ofFn (n := n) fun i =>
-    let qi := v.getD i.val 0
-    let qn := v.getD ((i.val + 1) % n) 0
+def testR (n : ℕ) (c : Array ℚ) (t : ℚ) (q : Vector ℚ n) : Vector ℚ n :=
+  Vector.ofFn fun i =>
+    let qi := q[i]
+    let qn := q.toArray.getD ((i.val + 1) % n) 0
     c.getD 0 0 + c.getD 1 0 * t + (c.getD 2 0 + c.getD 3 0 * t) * qi + c.getD 4 0 * qi * qn
-  fun i => r.getD i.val 0
 
-def showOut {n : ℕ} (o : StepOut ℚ (Fin n → ℚ)) : String :=
-  let vec (v : Fin n → ℚ) := showRats ((List.finRange n).map v)
-  let calls := o.calls.map (fun tc => showRat tc.1 ++ " " ++ vec tc.2)
-  showRat o.time ++ " | " ++ vec o.data ++ " | " ++ " | ".intercalate calls
+def showVec {n : ℕ} (v : Vector ℚ n) : String := showRats v.toList
+
+def showOut {n : ℕ} (o : StepOut ℚ (Vector ℚ n)) : String :=
+  let calls := o.calls.map (fun tc => showRat tc.1 ++ " " ++ showVec tc.2)
+  showRat o.time ++ " | " ++ showVec o.data ++ " | " ++ " | ".intercalate calls
 
 /-- pointwise scaling by a local time-step array -/
-def scaleBy {n : ℕ} (d : Array ℚ) (v : Fin n → ℚ) : Fin n → ℚ := fun i => d.getD i.val 0 * v i
+def scaleBy {n : ℕ} (d : Array ℚ) (v : Vector ℚ n) : Vector ℚ n :=
+  Vector.ofFn fun i => d.getD i.val 0 * v[i]
+
+def arrMin (a : Array ℚ) : ℚ := a.foldl min (a.getD 0 0)
+
+/-- scaling maps `dt * ·` and `dt/2 * ·` for a scalar (size 1) or local time-step array -/
+def scOf {n : ℕ} (d : Array ℚ) : Vector ℚ n → Vector ℚ n :=
+  if d.size = 1 then (fun v => (d.getD 0 0) • v) else scaleBy d
+def schalfOf {n : ℕ} (d : Array ℚ) : Vector ℚ n → Vector ℚ n :=
+  if d.size = 1 then (fun v => (d.getD 0 0 / 2) • v) else scaleBy (d.map (· / 2))
+
+/-- one step of an explicit class by name (tables from the generated file) -/
+def explicitStepByName (cls : String) (tcOf : ℚ → ℚ) (n : ℕ) (R : ℚ → Vector ℚ n → Vector ℚ n)
+    (d : Array ℚ) (t : ℚ) (q : Vector ℚ n) : Option (StepOut ℚ (Vector ℚ n)) :=
+  if cls = "explicit" then some (explicitStepG R (arrMin d) (scOf d) t q)
+  else if cls = "rk2" then some (rk2StepG R (arrMin d) (scOf d) (schalfOf d) t q)
+  else match Gen.butcherTables.lookup cls with
+    | some tbl => some (rkStepG tbl R (arrMin d) (scOf d) t q)
+    | none => match Gen.betaTables.lookup cls with
+      | some bs => some (lsStepG tcOf bs R (arrMin d) (scOf d) t q)
+      | none => none
 
 /-- `int <cls> <tc> | c0..c4 | t | dt... | q...`
   `dt` is one number (scalar step) or `n` numbers (local time step array); `tc` = `one` or `beta`
@@ -38,27 +57,13 @@ def handleInt (args : List String) : Option String := do
     let dt ← parseRats dts
     let q ← parseRats qs
     let n := q.length
-    let qa := q.toArray
-    let q0 : Fin n → ℚ := fun i => qa.getD i.val 0
-    let R := testR n c.toArray
     if dt.length ≠ 1 ∧ dt.length ≠ n then none else
-    let dta := dt.toArray
-    let dtm : ℚ := dt.foldl min (dt.headD 0)
-    let sc : (Fin n → ℚ) → (Fin n → ℚ) :=
-      if dt.length = 1 then (fun v => dtm • v) else scaleBy dta
-    let schalf : (Fin n → ℚ) → (Fin n → ℚ) :=
-      if dt.length = 1 then (fun v => (dtm / 2) • v) else scaleBy (dta.map (· / 2))
     let tcOf : ℚ → ℚ ← match tcs with
       | "one" => some (fun _ => 1)
       | "beta" => some (fun b => b)
       | _ => none
-    if cls = "explicit" then some (showOut (explicitStepG R dtm sc t q0))
-    else if cls = "rk2" then some (showOut (rk2StepG R dtm sc schalf t q0))
-    else match Gen.butcherTables.lookup cls with
-      | some tbl => some (showOut (rkStepG tbl R dtm sc t q0))
-      | none => match Gen.betaTables.lookup cls with
-        | some bs => some (showOut (lsStepG tcOf bs R dtm sc t q0))
-        | none => none
+    let o ← explicitStepByName cls tcOf n (testR n c.toArray) dt.toArray t (vOfList n q)
+    some (showOut o)
   | _ => none
 
 end Flowdyn.Exec
